@@ -675,6 +675,11 @@ def report_event(ctx, seen, ev, info, clause, tlc=None):
         if ev.get('mutated'):
             sig['mutated'] = ev['mutated']
         report(ctx, seen, sig, d)
+    elif k == 'vec':
+        sig = signature(ev['g'], 'backend-vectors', clause, 'backend-vectors')
+        sig['fn'] = ev['fn'] or 'conversion'
+        report(ctx, seen, sig, {'stage': 'backend-vectors', 'g': ev['g'], 'a': ev['a'], 'variant': info['variant'],
+                                'observed': ev, 'info': info, 'tlc_clauses': tlc})
     elif k == 'cover':
         axes = [i for i, x in enumerate(ev['exc']) if x > 4]
         for ax in (axes or [0]):
@@ -720,7 +725,8 @@ def run(ctx):
     try:
         import astra  # noqa: F401
     except Exception:
-        ctx.skip('ASTRA is not installed: astra_setup.py conversions (astra_conebeam_3d_geom_to_vec ...) not exercised')
+        ctx.skip('ASTRA is not installed: astra_projection_geometry / astra_data / projectors are not exercised (the '
+                 'pure-NumPy conversions astra_*_geom_to_vec are: stage 2b)')
     work = ctx.work
     tier = 'quick' if quick else 'thorough'
     timing = ctx.extra.setdefault('timing_s', {})
@@ -811,6 +817,36 @@ def run(ctx):
                     report_event(ctx, viol_seen, ev, info, clause)
     ctx.traces += len(events)
     ctx.extra['replayed_configurations'] = len(lines)
+
+    # ---- 2b. per-angle back-end vectors (astra_setup.py: pure NumPy, no ASTRA needed) on every exported flat-detector
+    #          configuration of the classes the conversions accept: off-centre detector partition, unequal cell sides,
+    #          an angle partition that has the exactly known angle as a grid point; judged by Trace_Geom (kind "vec")
+    nvec = 0
+    seen_vec = set()
+    for ln, line in enumerate(lines):
+        case = json.loads(line)
+        g, a = case['g'], case['a']
+        if g['cls'] not in ('cone', 'fan', 'par3dax') or g['det']['kind'] != 'flat':
+            continue
+        key = json.dumps([g, a], sort_keys=True)
+        if key in seen_vec:
+            continue
+        seen_vec.add(key)
+        variant = {'scale': bool((ln + ctx.seed) % 2), 'check_bounds': True, 'as_array': bool(ln % 3 == 0)}
+        ev = {'k': 'vec', 'g': g, 'a': a, 'u': [], 'px': [], 'fn': '', 'row': [], 'err': '', 'form': 'backend-vectors'}
+        info = {'variant': variant, 'seed': ctx.seed, 'where': 'backend-vectors'}
+        try:
+            ev['fn'], ev['row'], ev['u'], ev['px'] = G.backend_vectors(g, a, variant)
+        except Exception as e:
+            ev['err'] = type(e).__name__
+            info['exc'] = type(e).__name__ + ': ' + str(e)[:160]
+            ev['u'] = [{'c': [1, 1], 'q': [0, 1], 's': [0, 1]}] * (1 if g['cls'] == 'fan' else 2)
+            ev['px'] = [[1, 1]] * (1 if g['cls'] == 'fan' else 2)
+        events.append((ev, info))
+        ctx.count(['vec', g, a], frame_class(g) != 'default' or not _axis_aligned(a))
+        nvec += 1
+    ctx.traces += nvec
+    ctx.extra['backend_vector_rows_checked'] = nvec
 
     timing['replay'] = round(time.time() - t_sec, 1)
     t_sec = time.time()
@@ -942,7 +978,7 @@ def run(ctx):
     ctx.extra['trace_events_rejected_by_tlc'] = nfail
     ctx.extra['trace_events_outside_lattice_skipped'] = nskip
     ctx.extra['public_calls_observed'] = sum(7 if e['k'] == 'val' else 1 for e, _ in events)
-    ctx.extra['uncovered'] = ['astra_setup.py (ASTRA absent)', 'Parallel3dEulerGeometry slicing (no __getitem__)',
+    ctx.extra['uncovered'] = ['astra_setup.py apart from the *_geom_to_vec conversions (ASTRA absent)', 'Parallel3dEulerGeometry slicing (no __getitem__)',
                               'angle-dependent shift functions', 'surface_deriv / surface_measure']
     ctx.exhaustive = True    # every exported configuration / shape case / slice case of the bounded models is replayed
 
